@@ -80,7 +80,9 @@ func (s *subscriptionImpl) Add(teardown Teardown) {
 		return
 	}
 
+	verifPoint("subscription:Add:lock#0", s)
 	s.mu.Lock()
+	defer verifPoint("subscription:Add:ret#0", s)
 	defer s.mu.Unlock()
 
 	if s.done {
@@ -112,10 +114,12 @@ func (s *subscriptionImpl) AddUnsubscribable(unsubscribable Unsubscribable) {
 //
 // Implements Unsuscribable.
 func (s *subscriptionImpl) Unsubscribe() {
+	verifPoint("subscription:Unsubscribe:lock#0", s)
 	s.mu.Lock()
 
 	if s.done {
 		s.mu.Unlock()
+		verifPoint("subscription:Unsubscribe:unlocked#0", s)
 		return
 	}
 
@@ -123,12 +127,14 @@ func (s *subscriptionImpl) Unsubscribe() {
 
 	if len(s.finalizers) == 0 {
 		s.mu.Unlock()
+		verifPoint("subscription:Unsubscribe:unlocked#1", s)
 		return
 	}
 
 	finalizers := s.finalizers
 	s.finalizers = make([]func(), 0)
 	s.mu.Unlock()
+	verifPoint("subscription:Unsubscribe:unlocked#2", s)
 
 	var errs []error
 
@@ -154,7 +160,9 @@ func (s *subscriptionImpl) Unsubscribe() {
 //
 // Implements Subscription.
 func (s *subscriptionImpl) IsClosed() bool {
+	verifPoint("subscription:IsClosed:lock#0", s)
 	s.mu.Lock()
+	defer verifPoint("subscription:IsClosed:ret#0", s)
 	defer s.mu.Unlock()
 
 	return s.done
@@ -178,6 +186,7 @@ func (s *subscriptionImpl) Wait() {
 		ch <- struct{}{}
 	})
 
+	verifPoint("subscription:Wait:added", s)
 	<-ch
 	close(ch)
 }
